@@ -447,7 +447,20 @@ def run_scripts(res, prop, scripts, ncases, timeout=1500):
         rounds += 1
         jobs = [dict(args=["--arg", scripts[i], "--cases", ncases[i] + 1, "--first", first], tag="%s-s%d-r%d" % (prop, i, att),
                      replay=dict(script=scripts[i], first=first), _i=i, _first=first, _att=att) for i, first, att in pending]
+        nviol0 = len(res.viol)
         outs = vlib.run_jobs(res, "asan", "h_dns", jobs, timeout=timeout)
+        # A use-after-free key made of the faulting frames alone is too coarse for a known-findings entry (different
+        # objects freed by different paths fault in the same callback): append who freed the block.
+        freed = {}
+        for o in outs:
+            sfx = _freed_by(o["err"])
+            if sfx:
+                freed[(o["job"]["replay"]["script"], o["job"]["replay"]["first"])] = sfx
+        for v in res.viol[nviol0:]:
+            pl = (v.get("replay") or {}).get("payload") or {}
+            sfx = freed.get((pl.get("script"), pl.get("first")))
+            if sfx and v["key"].startswith("asan:heap-use-after-free") and "|freed:" not in v["key"]:
+                v["key"] += "|freed:" + sfx
         pending = []
         for o in outs:
             j = o["job"]
@@ -475,6 +488,30 @@ def run_scripts(res, prop, scripts, ncases, timeout=1500):
             elif last + 1 < ncases[i]:
                 res.add_stat("shards_abandoned", 1)
     return traces
+
+
+def _freed_by(errpath):
+    """first two repo frames (allocator shims skipped) of the 'freed by thread' stack of an ASan report"""
+    try:
+        lines = open(errpath, "r", errors="replace").read().splitlines()
+    except OSError:
+        return None
+    for i, ln in enumerate(lines):
+        if ln.startswith("freed by thread"):
+            out = []
+            for l2 in lines[i + 1:i + 30]:
+                m = re.match(r"^\s*#\d+\s+0x[0-9a-f]+\s+in\s+(\S+)\s+(\S+)", l2)
+                if not m:
+                    if not l2.strip():
+                        break
+                    continue
+                fn, loc = m.group(1), m.group(2)
+                if ("/repo" in loc or loc.startswith(vlib.REPO)) and fn not in ("event_mm_free_", "event_mm_realloc_"):
+                    out.append(fn)
+                    if len(out) == 2:
+                        break
+            return ",".join(out) or None
+    return None
 
 
 def case_texts(script):
